@@ -441,8 +441,34 @@ def r3_int_total(ctx):
                              'bare int() on a run-time value; use _int so that a malformed count becomes an envelope error')
 
 
+def r4_pending_errors_kept(ctx):
+    """a discrepancy the recount finds is reported through the pending-error list until the caller pops it: nothing
+    but pop_errors (and the constructors) may empty or replace that list, and never inside a loop over the input"""
+    allowed = {'X12Base.__init__', 'X12Base.pop_errors', 'X12Reader.__iter__', 'X12Reader.__init__', 'X12Writer.__init__'}
+    n = 0
+    for q, f in ctx.functions('x12file'):
+        for s_ in ast.walk(f):
+            tg = []
+            if isinstance(s_, ast.Assign):
+                tg = s_.targets
+            elif isinstance(s_, ast.Delete):
+                tg = s_.targets
+            hit = [t for t in tg if (path_of(t) or path_of(getattr(t, 'value', None)) or '') == 'self.err_list']
+            clear = isinstance(s_, ast.Expr) and isinstance(s_.value, ast.Call) and A.call_target(s_.value) in (('self.err_list', 'clear'), ('self.err_list', 'pop'))
+            if not hit and not clear:
+                continue
+            n += 1
+            in_loop = A.enclosing(s_, (ast.For, ast.While)) is not None
+            ok = q in allowed and not in_loop
+            yield Ob('x12file:%s empties the pending-error list: %s' % (q, norm(s_)), ok, ctx.floc(f, s_),
+                     '' if ok else ('the list is emptied once per %s: errors the caller has not popped yet are lost' % ('iteration' if in_loop else 'call of %s' % q)))
+    if n < 3:
+        raise AnalysisError('x12file: stores to self.err_list not found')
+
+
 RULES = [
     Rule('C04.R1', 'header/trailer compare-reset wiring derived from the branch labels of _parse_segment', r1_wiring, floor=37),
     Rule('C04.R2', 'top-of-stack reads/deletes/pops of emptiable lists hold NonEmpty (typestate on the CFG)', r2_stack_safety, floor=13),
     Rule('C04.R3', '_int is total over str|None; no bare int() on run-time values in x12file', r3_int_total, floor=1),
+    Rule('C04.R4', 'pending reader errors are only removed by pop_errors, never per segment', r4_pending_errors_kept, floor=2),
 ]
